@@ -515,6 +515,14 @@ def run_check(plugin, tier, seed):
     except Broken as b:
         ctx.log('BROKEN', b)
         broken.append(b)
+    except Exception as e:   # noqa: an exception escaping from the library
+        import traceback     # under test (or the harness) while corresponding
+        tb = traceback.format_exc()
+        b = Broken('correspondence',
+                   'the correspondence run raised ' + repr(e)[:300]
+                   + '\n' + tb[-1500:])
+        ctx.log('BROKEN', b)
+        broken.append(b)
     findings, _fixed = load_known()
     known = {k: d for (p, k, d) in findings if p == pid}
     # separate recognised finding classes
